@@ -24,6 +24,8 @@ def run(tier):
              300 if tier == 'quick' else 3000)
     ck.floor('functions containing a buffer hand-over', sum(r['res']['steal_functions'] for r in res),
              60 if tier == 'quick' else 600)
+    irrules.run_canaries(ck, {'ir_pair': [('R02.1', 'canary_unpaired'), ('R02.2', 'canary_steal_unguarded')]},
+                         silent=('canary_ok_alloc',), assert_flavour=True)
     for part in ('c02_observers',):
         try:
             mod = __import__('svlib.rules.' + part, fromlist=['collect'])
